@@ -29,6 +29,34 @@ def e2_postings_iter(ctx, num):
     run_scenarios(ctx, scs, "e2iter", perfile=60)
 
 
+def e1_fst_cache(ctx):
+    tlc_mc(ctx, "FstCache", "MC_FstCache.cfg", workers=8)
+    tlc_mc(ctx, "FstCache", "MC_FstCache_dev_LeakLock.cfg", workers=4, expect_violation="MutexMatchesCS")
+    tlc_mc(ctx, "FstCache", "MC_FstCache_dev_UnlockedHit.cfg", workers=4, expect_violation="LocksetDiscipline")
+
+
+def e2_fst_cache(ctx, num):
+    import lift
+    behs = tlc_emit(ctx, "FstCache", "Gen_FstCache.cfg", os.path.join(ctx.work, "beh-fst.json"),
+                    extra=["-simulate", "num=%d" % num, "-depth", "80", "-seed", str(ctx.seed)])
+    behs = lift.dedupe(behs)[:num]
+    run_scenarios(ctx, [lift.lift_fst(b, i) for i, b in enumerate(behs)], "e2fst", perfile=8, shards=16)
+
+
+def e1_stored_read(ctx):
+    tlc_mc(ctx, "StoredRead", "MC_StoredRead_%s.cfg" % ("quick" if ctx.quick else "thorough"))
+    tlc_mc(ctx, "StoredRead", "MC_StoredRead_dev_SharedCache.cfg", workers=4, expect_violation="Correct")
+    tlc_mc(ctx, "StoredRead", "MC_StoredRead_dev_LookAhead.cfg", workers=4, expect_violation="Correct")
+
+
+def e2_stored_read(ctx, num):
+    import lift
+    behs = tlc_emit(ctx, "StoredRead", "Gen_StoredRead.cfg", os.path.join(ctx.work, "beh-stored.json"),
+                    extra=["-simulate", "num=%d" % num, "-depth", "150", "-seed", str(ctx.seed)])
+    behs = lift.dedupe(behs)[:num]
+    run_scenarios(ctx, [lift.lift_stored(b, i) for i, b in enumerate(behs)], "e2stored", perfile=8, shards=16)
+
+
 def plan_C05(ctx):
     e1_postings_iter(ctx)
     e2_postings_iter(ctx, n_of(ctx, 400, 6000))
@@ -66,6 +94,8 @@ def plan_C04(ctx):
 
 
 def plan_C06(ctx):
+    e1_stored_read(ctx)
+    e2_stored_read(ctx, n_of(ctx, 32, 400))
     run_family(ctx, "stored_shapes", n_of(ctx, 200, 4000), perfile=n_of(ctx, 20, 40))
     run_family(ctx, "stored_sweep", n_of(ctx, 80, 400), perfile=5)
     canary(ctx)
@@ -106,6 +136,11 @@ def race_pass(ctx, family, n, prop):
 
 
 def plan_C09(ctx):
+    e1_fst_cache(ctx)
+    e2_fst_cache(ctx, n_of(ctx, 24, 300))
+    e1_stored_read(ctx)
+    e2_stored_read(ctx, n_of(ctx, 48, 600))
+    require_cov(ctx, "tag:nested", "tag:twoblocks")
     run_family(ctx, "conc_sched", n_of(ctx, 60, 1500), perfile=n_of(ctx, 10, 30))
     run_family(ctx, "conc_free", n_of(ctx, 40, 800), perfile=n_of(ctx, 8, 20))
     race_pass(ctx, "conc_free", n_of(ctx, 24, 300), "C09")
@@ -164,7 +199,10 @@ def plan_C18(ctx):
 
 
 def plan_C19(ctx):
+    e1_fst_cache(ctx)
+    e2_fst_cache(ctx, n_of(ctx, 40, 400))
     run_family(ctx, "fault_read", n_of(ctx, 150, 3000), perfile=n_of(ctx, 15, 40))
+    require_cov(ctx, "tag:fst_failed")
 
 
 PLANS = {
